@@ -881,7 +881,7 @@ def specialise_fresh_factories(modules, baseline=None):
     for m in modules.values():
         facs = {}
         for st in m.tree.body:
-            if isinstance(st, ast.FunctionDef) and is_private(st.name) and ('%s.%s' % (m.name, st.name)) not in baseline and not st.decorator_list:
+            if isinstance(st, ast.FunctionDef) and ('%s.%s' % (m.name, st.name)) not in baseline and not st.decorator_list:
                 body = list(st.body)
                 if body and isinstance(body[0], ast.Expr) and isinstance(body[0].value, ast.Constant) and isinstance(body[0].value.value, str):
                     body = body[1:]
